@@ -149,6 +149,8 @@ def loops(n):
     dec = "ㄱㅇㄱ ㄴㄱ ㄷㅎㄷ"; z = "ㄱㅇㄱ ㄱ ㄴㅎㄷ"            # k - 1 ; k == 0     (k = argument 0 of the innermost function)
     g_body = f"ㄱ ({dec} ㄴㅇ ㅎㄴ) ({z}) ㅎㄷ"                  # inside g: (j == 0)(0, f(j - 1)),  f = the function one level up
     return {
+     # EXACTLY the program of Loops2.countdown (proved for every N): f(k) = (0 < k)(f(k + -1), 0)
+     "proved-countdown": (f"{E(n)} (({dec} ㄱㅇ ㅎㄴ) ㄱ (ㄱ ㄱㅇㄱ ㅈㅎㄷ) ㅎㄷ ㅎ) ㅎㄴ", "0"),
      "self":         (f"{E(n)} (ㄱ ({dec} ㄱㅇ ㅎㄴ) ({z}) ㅎㄷ ㅎ) ㅎㄴ", "0"),                                             # f(k) = (k==0)(0, f(k-1))
      # f(k, acc) = (acc < 0 or k == 0)(acc, f(k-1, acc+1)): the test forces the accumulator each round (a LAZY accumulator would build a chain
      # of n pending additions, whose evaluation is ordinary nested recursion of depth n - see "lazy-accumulator" below)
@@ -164,6 +166,16 @@ def loops(n):
      "io-bind":      (f"{E(n)} ((ㄱ ㄱㅅㅎㄴ) ((ㄱ ㄱㅅㅎㄴ) ((ㄱㅇㄴ ㄴㄱ ㄷㅎㄷ) ㄴㅇ ㅎㄴ ㅎ) ㄱㄹㅎㄷ) ({z}) ㅎㄷ ㅎ) ㅎㄴ", "0"),      # loop(k) = (k==0)(return 0, return 0 >>= \\_. loop(k-1))
     }
 def nontail(n): return f"{E(n)} (ㄱ (ㄴ ({'ㄱㅇㄱ ㄴㄱ ㄷㅎㄷ'} ㄱㅇ ㅎㄴ) ㄷㅎㄷ) (ㄱㅇㄱ ㄱ ㄴㅎㄷ) ㅎㄷ ㅎ) ㅎㄴ"         # f(k) = (k==0)(0, 1 + f(k-1))
+
+def countdown_shape_ok(n):
+    """the text of the proved-countdown family parses (by the implementation's parser) to exactly the tree Loops2.countdown n, spans aside"""
+    import shrink
+    parse, _, AS, _ = vlib.mods()
+    arg = ["argref", ["lit", 0], 0]
+    cond = ["call", ["lit", 7], [["lit", 0], arg]]; dec = ["call", ["lit", 2], [arg, ["lit", -1]]]; rec = ["call", ["funref", 0], [dec]]
+    want = ["call", ["fundef", ["call", cond, [rec, ["lit", 0]]]], [["lit", n]]]
+    asts = parse.parse("<t>", loops(n)["proved-countdown"][0])
+    return len(asts) == 1 and shrink._tree(asts[0], AS) == want
 
 def c05_ladders(r, seed, tier, model_ok):
     """iteration ladder N = 10 .. 10^5 (10^6 thorough) x six tail-loop shapes x {with, without observer}, each run under
@@ -206,8 +218,16 @@ def c05_ladders(r, seed, tier, model_ok):
         fr[name] = [_ladder_one(dict(text=loops(n)[name][0], frames=True, tlimit=120))[3] for n in (50, 200, 800)]
         if max(fr[name]) > min(fr[name]) + 2:
             bad.append(dict(program=loops(200)[name][0], impl=f"peak live evaluator frames at N = 50 / 200 / 800: {fr[name]}", model="a tail loop uses constant evaluator stack", which=["frames-grow"]))
+    # the loop of the theorem: its text IS Loops2.countdown N (implementation's parser), and the implementation's peak number of live evaluator
+    # frames is the demand depth the theorem bounds (countdown_main: d <= 5 for every N; measured 4 at N = 0 and 5 from N = 1 on, as the model computes)
+    for n in (0, 3, 1000):
+        if not countdown_shape_ok(n): r.problem("correspondence", f"the text of the proved-countdown family no longer parses to Loops2.countdown {n}: {loops(n)['proved-countdown'][0]!r}")
+    pf = {n: _ladder_one(dict(text=loops(n)["proved-countdown"][0], frames=True, tlimit=120))[3] for n in (0, 1, 2, 50, 800, 20000)}
+    if any(v is None or v > 5 for v in pf.values()) or pf[0] != 4:
+        bad.append(dict(program=loops(800)["proved-countdown"][0], impl=f"peak live evaluator frames by N: {pf}", model="4 at N = 0 and 5 for every N >= 1 (Loops2.countdown_main: demand depth <= 5 for every N)", which=["frames-vs-theorem"]))
+    fr["proved-countdown-by-N"] = pf
     r.slice("iteration_ladders", len(cases), len(cases), [cases[0]["text"], cases[7]["text"]], dict(table=table, observer_max_depth=depths, peak_live_frames_at_50_200_800=fr, host_recursion_limit=400),
-            "six tail-loop families x N in 10..10^5(6) x observer on/off under recursion limit 400; non-tail depths across the frame limit; distinct = all cases", bad)
+            "nine tail-loop families (one of them the program of the theorem countdown_constant_depth) x N in 10..10^5(6) x observer on/off under recursion limit 400; non-tail depths across the frame limit; distinct = all cases", bad)
     # nesting ladders: host recursion in formatter / recursive_strict / as_key / _bind is a KNOWN finding; any OTHER site is a violation
     nest = []
     for dep in [50, 200, 500, 2000]:
